@@ -1,6 +1,5 @@
 \* C12 thorough: adds every two-hot word and nibble patterns, and the fifth base
 CONSTANTS
-  AllCells = FALSE
   FixedWindowRaw = FALSE
   FixedWatchdogRestart = FALSE
   ValMode = 2
